@@ -463,7 +463,7 @@ Lemma rt_try_grow_spec fallible extra (Q : bool -> st -> Prop) (U : panic -> st 
   wp (rt_try_grow c fallible extra) Q U s.
 Proof.
   intros (HR & Hok & _) Hlo HT HF HU. unfold rt_try_grow. wp_steps. rewrite Hlo.
-  unfold debug_check. cbn [is_some_b negb]. rewrite Bool.andb_false_r. wp_steps.
+  unfold debug_check. cbn [is_some_b negb]. wp_steps.
   set (t := main (s_rt s)). set (n := hlen t).
   apply hb_with_capacity_spec.
   - intros nt s1 Hs1 Hempty Hn0 Hnt Hgl Hcap Hlt _.
